@@ -116,7 +116,9 @@ CHECKS = {
                  "expand_dims_reads, repeat_reads, tile_reads, diagonal_reads, concatenate_reads, stack_reads, swapaxes_reads, moveaxis_reads "
                  "(each: output shape, every listed position in range, output multi-index j reads the stated input multi-index; "
                  "rearrangements are permutations of the positions); the run compares the model's gather lists with numpy on ~770 shape/argument "
-                 "combinations. 31 functions / methods / indexing forms are run on 0-3-d "
+                 "combinations; likewise basic indexing with Python slice semantics, split / array_split, diag, atleast_nd, broadcast_to "
+                 "(IndexFns: basic_index_reads, split_reads, ...) and where / choose / full / hstack / vstack / dstack (SelectFns: where_reads, "
+                 "choose_reads, vstack_reads, ...), ~1350 model-vs-numpy cases per run. 31 functions / methods / indexing forms are run on 0-3-d "
                  "arrays incl. transposed views; the expected placement comes from running the same numpy function on "
                  "index arrays and gathering in the Lean model; joins use operands with different names and terms.",
          "note": BASE_NOTE + " numpy's shape functions are assumed to be value-independent rearrangements (that is what running them on index arrays uses)."},
@@ -130,7 +132,8 @@ CHECKS = {
                  "succeed on well-formed arrays and element i is the weighted sum / sum of products / product of the listed elements. "
                  "numpy's index arithmetic for the reductions is in the model (Np/Model/ReduceFns.lean): sum_axis_table / sum_axis_is_the_sum, "
                  "sum_axes_table / sum_axes_single, cumsum_table, diff_table, diff_twice_table (1,-2,1), ediff1d_table, prod_groups_table "
-                 "(row of every output multi-index = exactly the inputs along the axis). "
+                 "(row of every output multi-index = exactly the inputs along the axis); inner / outer / matmul (BilinearFns) end to end: "
+                 "matmul_is_sum_of_products, stacked_matmul_is_sum_of_products, outer_is_products, inner_is_sum_of_products. "
                  "Weights come from numpy on unit vectors, product groups from numpy on index arrays, and the model's own tables are compared with them in every run.",
          "note": BASE_NOTE + " Known findings D21 (matmul with 1-d operands) and D22 (prod over an axis tuple) are pinned by the package's docstrings/tests and reported as KNOWN-FINDING."},
  "C11": {"ref": "5/C11", "technique": "Lean 4 pattern theorems + decide over the regenerated registries (every registered function classified) + correspondence against numpy on constants",
